@@ -56,6 +56,11 @@ class Unsupported(Exception):
   """Construct outside the verified subset: the function becomes *undecided*, never a violation."""
 
 
+class GhostUnset(Unsupported):
+  """A spec clause mentions a ghost variable the unit under verification does not track: at call sites such a clause
+  (which only constrains ghost state) is skipped."""
+
+
 class V(object):
   pyonly = False
 
@@ -220,6 +225,14 @@ class VSnap(V):
     self.elem = elem
 
 
+class VSeq(V):
+  """Ghost sequence (spec only): a mathematical map Int -> Val kept outside the heap, so no heap havoc touches it."""
+  pyonly = True
+
+  def __init__(self, t):
+    self.t = t
+
+
 class Raised(object):
   """Marker returned by evaluation when an exception propagates."""
 
@@ -253,7 +266,7 @@ class Kind(object):
 
   def sort(self):
     t = self.tag
-    if t in ('int', 'enum', 'ref', 'list', 'dict', 'set', 'fn', 'exc'):
+    if t in ('int', 'enum', 'ref', 'list', 'dict', 'set', 'fn', 'exc', 'tuple'):
       return z3.IntSort()
     if t == 'bool':
       return z3.BoolSort()
@@ -288,7 +301,7 @@ def parse_kind(s):
     if '{' in s:
       tags = tuple(x.strip() for x in s[s.index('{') + 1:s.rindex('}')].split(','))
     return Kind('val', tags=tags)
-  for c in ('list', 'dict', 'set'):
+  for c in ('list', 'dict', 'set', 'tuple'):
     if s == c:
       return Kind(c, elem=Kind('val'), key=Kind('str') if c == 'dict' else None, nullable=nullable)
     if s.startswith(c + '['):
